@@ -4,12 +4,21 @@ mod json;
 mod rng;
 mod sy;
 
+mod ast;
+mod c08_09_14;
+mod c13;
 mod c17;
+mod gen;
+mod lua;
+mod print;
+mod refsem;
+mod rel;
+mod scope;
 
 use fw::{Check, Tier};
 
 fn registry() -> Vec<&'static dyn Check> {
-    vec![&c17::C17]
+    vec![&c08_09_14::C08, &c08_09_14::C09, &c13::C13, &c08_09_14::C14, &c17::C17]
 }
 
 fn find(id: &str) -> Option<&'static dyn Check> {
@@ -46,6 +55,12 @@ fn main() {
             let shards: u64 = args[5].parse().unwrap_or(1);
             std::process::exit(fw::worker_main(c, ctx, shard, shards, args[6].clone()));
         }
+        "genprobe" => {
+            let n: u64 = args.get(1).and_then(|s| s.parse().ok()).unwrap_or(1000);
+            let seed: u64 = args.get(2).and_then(|s| s.parse().ok()).unwrap_or(1);
+            let show: usize = args.get(3).and_then(|s| s.parse().ok()).unwrap_or(5);
+            fw::on_big_stack(move || gen_probe(n, seed, show));
+        }
         "replay" => {
             if args.len() != 5 {
                 usage();
@@ -67,5 +82,70 @@ fn main() {
             let ctx = fw::ctx_from_env(tier(&args[1]));
             std::process::exit(fw::master_main(c, ctx));
         }
+    }
+}
+
+pub fn gen_probe(n: u64, seed: u64, show: usize) {
+    use std::collections::BTreeMap;
+    let mut reasons: BTreeMap<String, (u64, String)> = BTreeMap::new();
+    let (mut ok, mut dropped, mut tag) = (0u64, 0u64, 0u64);
+    let mut outcomes: BTreeMap<String, u64> = BTreeMap::new();
+    let mut fuels: Vec<(u64, u64, usize)> = Vec::new();
+    for i in 0..n {
+        let mut rng = rng::Rng::for_case(seed, "probe", i);
+        let p = gen::generate(&mut rng, gen::Cfg::general(3));
+        let text = print::canonical(&p);
+        let r = refsem::run_program(&p, 50_000);
+        *outcomes.entry(format!("{:?}", r.outcome).chars().take(60).collect()).or_insert(0) += 1;
+        match &r.outcome {
+            refsem::Outcome::OutOfDomain(_) | refsem::Outcome::Budget => dropped += 1,
+            refsem::Outcome::TagError(e) => {
+                tag += 1;
+                if tag <= show as u64 {
+                    println!("=== TAG ERROR {}\n{}", e, text);
+                }
+            }
+            _ => {}
+        }
+        let t0 = std::time::Instant::now();
+        let cr = sy::compile_files(&sy::one_file(&text), "main.sy", &sy::CompileOpts { fuel: Some(3_000_000), ..Default::default() });
+        fuels.push((sy::last_fuel_used(), t0.elapsed().as_micros() as u64, text.len()));
+        match cr {
+            sy::Compiled::Ok(_) => ok += 1,
+            sy::Compiled::Err { errors, .. } => {
+                let d = errors.first().map(|e| e.display.clone()).unwrap_or_default();
+                let key: String = d.lines().skip(1).take(2).collect::<Vec<_>>().join(" | ").chars().filter(|c| !c.is_ascii_digit()).take(110).collect();
+                let e = reasons.entry(key).or_insert((0, String::new()));
+                e.0 += 1;
+                if e.1.is_empty() {
+                    e.1 = format!("{}\n-----\n{}", d, text);
+                }
+            }
+            other => {
+                let e = reasons.entry(other.brief()).or_insert((0, String::new()));
+                e.0 += 1;
+                if e.1.is_empty() {
+                    e.1 = text.clone();
+                }
+            }
+        }
+        if i < show as u64 && false {
+            println!("{}", text);
+        }
+    }
+    println!("generated {} accepted {} dropped(ref) {} tagerrors {}", n, ok, dropped, tag);
+    fuels.sort();
+    let q = |f: f64| fuels[((fuels.len() - 1) as f64 * f) as usize];
+    println!("fuel/us/len p50 {:?} p90 {:?} p99 {:?} p999 {:?} max {:?}", q(0.5), q(0.9), q(0.99), q(0.999), q(1.0));
+    for (k, v) in &outcomes {
+        println!("  outcome {:<60} {}", k, v);
+    }
+    let mut rs: Vec<_> = reasons.into_iter().collect();
+    rs.sort_by_key(|(_, (c, _))| std::cmp::Reverse(*c));
+    let _ = std::fs::create_dir_all("/tmp/sy/rej");
+    for (n, (k, (c, ex))) in rs.iter().take(show).enumerate() {
+        let (err, text) = ex.split_once("\n-----\n").unwrap_or(("", ex));
+        let _ = std::fs::write(format!("/tmp/sy/rej/r{}.sy", n), text);
+        println!("### {} x {}\n{}\n   -> /tmp/sy/rej/r{}.sy", c, k, err, n);
     }
 }
